@@ -1,7 +1,8 @@
 (** Property C14 — a moc-set file always reflects the history of updates applied to it.
     Statements only (model: Model/MocSet.v). *)
 From Coq Require Import List NArith.
-From MOC.Model Require Import MocSet.
+From MOC.Base Require Import RangeSet.
+From MOC.Model Require Import MocSet MocSetBytes MocSetBytesProofs.
 Import ListNotations.
 Open Scope N_scope.
 
@@ -54,6 +55,26 @@ Example C14_nonvacuous :
   extract nat (run nat s0 h) 5 = Some 52%nat /\ snd (exec nat (run nat s0 h) (Append nat 7 Valid 0%nat)) = Failed.
 Proof. repeat split; vm_compute; reflexivity. Qed.
 
+(** ---- the file itself, byte level (Model/MocSetBytes.v: n128, metadata words, cumulative index, data) ----
+    the layout of a state is decodable: reading n128, scanning the metadata words to the first void
+    one, reading the index and slicing the data gives back every entry (status, depth, identifier,
+    ranges, 32- or 64-bit storage according to the depth), for every well-formed state *)
+Theorem C14_file_layout_decodes : forall n128 (ents : list sentry),
+  1 <= n128 -> (length ents <= cap_of n128)%nat -> Forall entry_ok ents ->
+  hdr_size n128 + N.of_nat (length (data_part ents)) < 2 ^ 64 ->
+  decode_file (file_bytes n128 ents) = (n128, ents).
+Proof. exact decode_file_bytes. Qed.
+
+Example C14_file_layout_nonvacuous :
+  let e1 : sentry := {| e_st := Valid; e_id := 7; e_moc := (3, [(0, 4398046511104); (8796093022208, 17592186044416)]) |} in
+  let e2 : sentry := {| e_st := Removed; e_id := 9; e_moc := (20, [(5, 9)]) |} in
+  Forall entry_ok [e1; e2] /\ length (file_bytes 1 [e1; e2]) = 2080%nat /\
+  decode_file (file_bytes 1 [e1; e2]) = (1, [e1; e2]).
+Proof.
+  split; [|split; vm_compute; reflexivity].
+  repeat constructor; vm_compute; try reflexivity; try discriminate.
+Qed.
+
 Print Assumptions C14_reachable_files_well_formed.
 Print Assumptions C14_append_then_extract.
 Print Assumptions C14_append_succeeds_iff.
@@ -61,3 +82,4 @@ Print Assumptions C14_purge_drops_exactly_removed.
 Print Assumptions C14_chgstatus_effect.
 Print Assumptions C14_failed_commands_leave_file_unchanged.
 Print Assumptions C14_concurrent_writer_blocks_updates.
+Print Assumptions C14_file_layout_decodes.
